@@ -1,6 +1,7 @@
 package main
 
 import (
+	"fmt"
 	"go/ast"
 	"go/token"
 	"go/types"
@@ -9,7 +10,7 @@ import (
 // Rules added after the second round of independently seeded changes (DESIGN.md section 8).
 
 func init() {
-	registerRule("make-append", 6, "in the gob codecs a slice that is filled by append starts empty: make([]T, n) followed by append leaves n zero elements in front of the data", func(c *Ctx) {
+	registerRule("make-append", 2, "in the gob codecs a slice that is filled by append starts empty: make([]T, n) followed by append leaves n zero elements in front of the data", func(c *Ctx) {
 		ruleMakeAppend(c, "make-append", c.reachableFrom("GobEncode", "GobDecode"))
 	})
 	registerRule("make-append-json", 1, "in the JSON codecs a slice that is filled by append starts empty", func(c *Ctx) {
@@ -141,6 +142,19 @@ func ruleMakeAppend(c *Ctx, rule string, fds []*ast.FuncDecl) {
 		ast.Inspect(fd.Body, func(nd ast.Node) bool {
 			if fl, ok := nd.(*ast.FuncLit); ok {
 				walk(fl.Body.List)
+			}
+			// append(make([]T, n, ..), xs...): the made slice is appended to on the spot
+			if ap, ok := nd.(*ast.CallExpr); ok && c.isBuiltin(ap, "append") && len(ap.Args) > 0 {
+				if mk, ok := unparen(ap.Args[0]).(*ast.CallExpr); ok && c.isBuiltin(mk, "make") && len(mk.Args) >= 2 {
+					if _, isSlice := c.typeOf(mk).Underlying().(*types.Slice); isSlice {
+						n++
+						c.saw(fn)
+						tv, ok := c.Info.Types[mk.Args[1]]
+						zero := ok && tv.Value != nil && tv.Value.String() == "0"
+						c.ob(rule, fmt.Sprintf("%s:append(make)#%d", fn, n), mk.Pos(), zero,
+							"a slice made with a non-zero length is appended to on the spot: the data follows that many zero elements")
+					}
+				}
 			}
 			return true
 		})
